@@ -79,8 +79,20 @@ def gen_zones(rng, h, w, nonfinite=True):
     n = h * w
     pool = rng.choice(ZONE_POOLS)
     ids = rng.sample(pool, rng.randint(1, len(pool)))
-    layout = rng.choice(["random", "random", "blocks", "stripes", "interleaved", "single"])
-    if layout == "random":
+    layout = rng.choice(["random", "random", "blocks", "stripes", "interleaved", "single", "rects"])
+    background = None
+    if layout == "rects":             # rasterised polygons: axis-aligned rectangles on a background (NaN or one more id)
+        background = math.nan if nonfinite and rng.random() < 0.75 else ids[-1]
+        z = [background] * n
+        for zid in ids[:max(1, len(ids) - (0 if background != background else 1))][:3]:
+            r0 = rng.randrange(0, h)
+            r1 = rng.randint(r0 + 1, h)
+            c0 = rng.randrange(0, w)
+            c1 = rng.randint(c0 + 1, w)
+            for i in range(r0, r1):
+                for j in range(c0, c1):
+                    z[i * w + j] = zid
+    elif layout == "random":
         z = [rng.choice(ids) for _ in range(n)]
     elif layout == "blocks":          # contiguous runs in raster order, ids not in ascending order
         cuts = sorted(rng.randrange(0, n + 1) for _ in range(len(ids) - 1))
@@ -95,8 +107,15 @@ def gen_zones(rng, h, w, nonfinite=True):
         z = [ids[(i + j) % len(ids)] for i in range(h) for j in range(w)]
     else:
         z = [ids[0]] * n
-    allints = all(float(v) == int(v) for v in z)
+    allints = all(v == v and float(v) == int(v) for v in z)
     kinds = []
+    if background is not None and background != background:
+        kinds = ["nan"] if rng.random() < 0.7 else ["nan", rng.choice(["inf", "-inf"])]
+        z = [float(v) for v in z]
+        for i in range(n):            # a few stray non-finite cells inside the polygons as well
+            if rng.random() < 0.05:
+                z[i] = {"nan": math.nan, "inf": math.inf, "-inf": -math.inf}[rng.choice(kinds)]
+        return z, rng.choice(["float64", "float64", "float32"]), ids, layout, kinds
     if nonfinite and rng.random() < 0.55:
         kinds = [k for k in ("nan", "inf", "-inf") if rng.random() < 0.5] or ["nan"]
     z = [float(v) for v in z]
@@ -154,6 +173,82 @@ def gen_nodata(rng, values, ids):
     return 99.0
 
 
+# ---- values adjacent to nodata ---------------------------------------------------------------------------
+# "different from nodata_values" is an exact comparison: the cells right next to the nodata value are data.
+NEAR_BIG = [100000, 200000, 250000, 10 ** 6, 2 ** 24 - 8, 10 ** 7, 2 ** 31 - 8, 10 ** 9, 10 ** 12]
+NEAR_SMALL = [-9999, -32768, 255, 65535, -1, 7, 100]
+NEAR_FLOAT = [1000.0, -32768.0, 0.5, 1.0, 1e6, -9999.0, 123456.75, 2.0 ** -20, 65535.0, 1e9]
+INT_RANGE = {"int32": (-2 ** 31, 2 ** 31 - 1), "int64": (-2 ** 53, 2 ** 53), "float64": (-2 ** 53, 2 ** 53),
+             "float32": (-2 ** 24, 2 ** 24)}
+
+
+def near_spec(rng, mode=None):
+    """choose a nodata value and the valid values surrounding it:
+       int-big    |nodata| >= 1e5, neighbours nodata +- 1, 2, 3 (integer and float rasters)
+       int-small  the usual sentinels (-9999, 255, ...), neighbours +- 1, 2
+       float-ulp  a float nodata, neighbours = the next / previous few floats of the raster's dtype, a few ppm off,
+                  a few tens of ppm off
+       zero-tiny  nodata 0, neighbours = tiny non-zero numbers of either sign (down to the smallest subnormal)
+    every value is exactly representable in the raster's dtype (the library compares in that dtype)"""
+    mode = mode or rng.choice(["int-big", "int-big", "int-small", "float-ulp", "float-ulp", "zero-tiny"])
+    if mode in ("int-big", "int-small"):
+        dtype = rng.choice(["int32", "int64", "float64", "float32"])
+        lo, hi = INT_RANGE[dtype]
+        pool = [x for x in (NEAR_BIG if mode == "int-big" else NEAR_SMALL) if lo + 4 <= x <= hi - 4]
+        nd = rng.choice(pool) * (rng.choice([1, 1, -1]) if mode == "int-big" else 1)
+        ds = [-3, -2, -1, 1, 2, 3] if mode == "int-big" else [-2, -1, 1, 2]
+        return dict(mode=mode, dtype=dtype, nodata=float(nd), near=[float(nd + d) for d in ds])
+    dtype = rng.choice(["float64", "float64", "float32"])
+    t = np.dtype(dtype).type
+    if mode == "zero-tiny":
+        fi = np.finfo(t)
+        pos = [t(2.0 ** -30), t(2.0 ** -27), t(2.0 ** -40), t(1e-9), fi.tiny, np.nextafter(t(0), t(1)), t(2.0 ** -100)]
+        near = [float(x) for x in pos] + [-float(x) for x in pos]
+        return dict(mode=mode, dtype=dtype, nodata=0.0, near=near)
+    x = t(rng.choice(NEAR_FLOAT) * rng.choice([1, 1, -1]))
+    near = []
+    for direction in (t(np.inf), t(-np.inf)):
+        y = x
+        for k in range(1, 65):
+            y = np.nextafter(y, direction)
+            if k in (1, 2, 3, 8, 64):
+                near.append(float(y))
+    for rel in (2.0 ** -17, -2.0 ** -17, 2.0 ** -14, -2.0 ** -14, 2.0 ** -10, -2.0 ** -10):
+        near.append(float(t(x * t(1 + rel))))
+    near = sorted({v for v in near if v != float(x) and not math.isinf(v)})
+    return dict(mode=mode, dtype=dtype, nodata=float(x), near=near)
+
+
+def near_values(rng, n, spec, nonfinite=True):
+    """a value raster around `spec['nodata']`: its neighbours, the nodata value itself, a few ordinary levels"""
+    few = rng.sample(spec["near"], min(len(spec["near"]), rng.randint(1, 4)))     # few levels: good categories too
+    other = [float(x) for x in rng.sample([0, 1, 2, 3, 5, 8, 10, 20, 30], 2)]
+    v = []
+    for _ in range(n):
+        r = rng.random()
+        v.append(rng.choice(few) if r < 0.55 else spec["nodata"] if r < 0.75 else rng.choice(other))
+    kinds = []
+    if nonfinite and spec["dtype"].startswith("float") and rng.random() < 0.4:
+        kinds = [k for k in ("nan", "inf", "-inf") if rng.random() < 0.5] or ["nan"]
+        for i in range(n):
+            if rng.random() < 0.12:
+                v[i] = {"nan": math.nan, "inf": math.inf, "-inf": -math.inf}[rng.choice(kinds)]
+    return v, spec["dtype"], "near-nodata:" + spec["mode"], kinds
+
+
+NEAR_RATE = 0.15
+
+
+def gen_values_nodata(rng, n, ids, kind=None):
+    """(values, dtype, kind, non-finite kinds, nodata): the ordinary streams, or (15 %) values adjacent to nodata"""
+    if rng.random() < NEAR_RATE:
+        spec = near_spec(rng)
+        v, dt, vk, kinds = near_values(rng, n, spec)
+        return v, dt, vk, kinds, spec["nodata"]
+    v, dt, vk, kinds = gen_values(rng, n, kind=kind)
+    return v, dt, vk, kinds, gen_nodata(rng, v, ids)
+
+
 def gen_selection(rng, present, absent_pool, allow_none=True, need_one=False):
     """a request list: subset / permutation of the present ids, possibly with absent ids"""
     r = rng.random()
@@ -180,8 +275,7 @@ def make_stats_case(rng, max_h=6, max_w=7, need_one=False):
     h, w = gen_shape(rng, max_h, max_w)
     n = h * w
     z, zdt, ids, layout, zkinds = gen_zones(rng, h, w)
-    v, vdt, vkind, vkinds = gen_values(rng, n)
-    nodata = gen_nodata(rng, v, ids)
+    v, vdt, vkind, vkinds, nodata = gen_values_nodata(rng, n, ids)
     present = finite_ids(np.array(z).astype(zdt).astype(float).tolist())
     # sometimes empty one zone completely (no valid cell)
     if present and rng.random() < 0.3:
@@ -217,6 +311,179 @@ def gen_chunks(rng, n):
     cuts = sorted(rng.sample(range(1, n), k - 1)) if n > 1 else []
     cuts = [0] + cuts + [n]
     return tuple(cuts[i + 1] - cuts[i] for i in range(len(cuts) - 1))
+
+
+# ---------------------------------------------------------------- the overflow-scale size class
+# The bookkeeping of zonal.py is done in 32-bit integers (`_strides` returns int32 breaks, the crosstab counts are
+# their differences): anything computed *from* a count in that width wraps once a count times a small factor passes
+# 2^31.  One raster of realistic size (about 4800 x 4800, one dominant zone / category holding more than 2^31 / 100
+# cells) exercises that; it is described by rectangles so that the replay file stays small.
+SCALE_MIN_CELLS = 2 ** 31 // 100 + 1
+
+
+def make_scale_case(rng):
+    h, w = rng.randint(4700, 4860), rng.randint(4700, 4860)
+    zid = rng.sample(range(1, 100), 4)
+    cat = rng.sample(range(1, 100), 5)
+    zrects = []
+    for k in range(rng.randint(1, 3)):
+        r0, c0 = rng.randrange(0, h - 300), rng.randrange(0, w - 300)
+        zrects.append([r0, r0 + rng.randint(1, 300), c0, c0 + rng.randint(1, 300), zid[1 + k]])
+    vrects = [[0, h, (c0 := rng.randrange(0, w - 30)), c0 + rng.randint(1, 30), cat[1]]]      # a full-height strip
+    for k in range(rng.randint(1, 3)):
+        r0, c0 = rng.randrange(0, h - 300), rng.randrange(0, w - 300)
+        vrects.append([r0, r0 + rng.randint(1, 300), c0, c0 + rng.randint(1, 300), cat[2 + k]])
+    nodata = rng.choice([None, cat[2], cat[2], 0])
+    return dict(scale=True, h=h, w=w, zdtype=rng.choice(["int8", "uint8", "int16"]), zfill=zid[0], zrects=zrects,
+                vdtype=rng.choice(["int8", "uint8", "int16"]), vfill=cat[0], vrects=vrects,
+                nodata=None if nodata is None else tok(nodata), zone_ids=None, cat_ids=None)
+
+
+def scale_arrays(c):
+    zones = np.full((c["h"], c["w"]), c["zfill"], dtype=c["zdtype"])
+    for r0, r1, c0, c1, v in c["zrects"]:
+        zones[r0:r1, c0:c1] = v
+    vals = np.full((c["h"], c["w"]), c["vfill"], dtype=c["vdtype"])
+    for r0, r1, c0, c1, v in c["vrects"]:
+        vals[r0:r1, c0:c1] = v
+    return zones, vals
+
+
+def scale_hist(c, zones, vals):
+    """{zone: {value: number of cells}} over the valid (non-nodata) cells, by one np.bincount over (zone, value) codes
+    (every value is a small non-negative integer here); independent of the library's sort-and-stride"""
+    span = int(vals.max()) + 1
+    code = zones.astype(np.int64) * span + vals.astype(np.int64)
+    cnt = np.bincount(code.ravel())
+    nd = None if c.get("nodata") is None else untok(c["nodata"])
+    out = {}
+    for k in np.flatnonzero(cnt).tolist():
+        z, v = divmod(k, span)
+        out.setdefault(z, {})
+        if nd is None or v != nd:
+            out[z][v] = int(cnt[k])
+    return out
+
+
+def scale_data_arrays(c, backend="numpy"):
+    zones, vals = scale_arrays(c)
+    if backend == "dask":
+        import dask.array as da
+        ch = (c["h"] // 2 + 1, c["w"] // 2 + 1)
+        return zones, vals, xr.DataArray(da.from_array(zones, chunks=ch), dims=["y", "x"]), \
+            xr.DataArray(da.from_array(vals, chunks=ch), dims=["y", "x"])
+    return zones, vals, xr.DataArray(zones, dims=["y", "x"]), xr.DataArray(vals, dims=["y", "x"])
+
+
+def run_scale_crosstab(c, backend="numpy"):
+    """-> (status, table, histogram)"""
+    from xrspatial.zonal import crosstab
+    zones, vals, zd, vd = scale_data_arrays(c, backend)
+    hist = scale_hist(c, zones, vals)
+    try:
+        out = crosstab(zones=zd, values=vd, agg=c["agg"], nodata_values=num_of(c.get("nodata")))
+        if backend == "dask":
+            import dask
+            with dask.config.set(scheduler="threads", num_workers=4):
+                out = out.compute()
+    except Exception as ex_:  # noqa: BLE001
+        return err_kind(ex_), str(ex_)[:200], hist
+    cols = [col for col in out.columns if col != "zone"]
+    return "ok", dict(zone=[float(x) for x in out["zone"].tolist()], cats=[float(x) for x in cols],
+                      rows=[[float(out[col].iloc[k]) for col in cols] for k in range(len(out))]), hist
+
+
+def oracle_scale_crosstab(c, st, tbl, hist):
+    """the contingency table / percentages of a scale case against the histogram; percentages to 1e-6 relative
+    (the library keeps `_total_count` in float32, exact only up to 2^24 cells)"""
+    if st != "ok":
+        return f"crosstab raised {st}: {tbl}"
+    zs = sorted(hist)
+    cats = sorted({v for d in hist.values() for v in d})
+    if tbl["zone"] != [float(z) for z in zs]:
+        return f"rows {tbl['zone']} but the zones present are {zs}"
+    if tbl["cats"] != [float(v) for v in cats]:
+        return f"columns {tbl['cats']} but the categories present are {cats}"
+    for k, z in enumerate(zs):
+        total = sum(hist[z].values())
+        for j, v in enumerate(cats):
+            n = hist[z].get(v, 0)
+            got = tbl["rows"][k][j]
+            if c["agg"] == "count":
+                if got != n:
+                    return f"zone {z}, category {v}: count = {got}, the raster has {n} such cells"
+            elif total == 0:
+                if got == got:
+                    return f"zone {z}, category {v}: percentage = {got} for a zone without valid cell (expected NaN)"
+            elif not close(got, 100.0 * n / total, rel=1e-6, abs_=1e-9):
+                return f"zone {z}, category {v}: percentage = {got}, but {n} of the zone's {total} valid cells " \
+                       f"are {100.0 * n / total} %"
+        if c["agg"] == "percentage" and total and not close(sum(tbl["rows"][k]), 100.0, rel=1e-6, abs_=1e-9):
+            return f"zone {z}: percentages sum to {sum(tbl['rows'][k])}"
+    return None
+
+
+def run_scale_stats(c, backend="numpy"):
+    from xrspatial.zonal import stats
+    zones, vals, zd, vd = scale_data_arrays(c, backend)
+    hist = scale_hist(c, zones, vals)
+    try:
+        out = stats(zones=zd, values=vd, stats_funcs=list(c["stats"]), nodata_values=num_of(c.get("nodata")))
+        if backend == "dask":
+            import dask
+            with dask.config.set(scheduler="threads", num_workers=4):
+                out = out.compute()
+    except Exception as ex_:  # noqa: BLE001
+        return err_kind(ex_), str(ex_)[:200], hist
+    tbl = {"zone": [float(x) for x in out["zone"].tolist()]}
+    for s in c["stats"]:
+        tbl[s] = [float(x) for x in out[s].tolist()]
+    return "ok", tbl, hist
+
+
+def oracle_scale_stats(c, st, tbl, hist, dask_formula=False):
+    """every statistic from the histogram in exact arithmetic (count / max / min exact, sums of integers below 2^53
+    exact, mean / var / std to 1e-9 relative -- var / std through the cancellation bound of `stat_close`)"""
+    if st != "ok":
+        return f"stats raised {st}: {tbl}"
+    zs = sorted(hist)
+    if tbl["zone"] != [float(z) for z in zs]:
+        return f"rows {tbl['zone']} but the zones present are {zs}"
+    for k, z in enumerate(zs):
+        d = hist[z]
+        n = sum(d.values())
+        for s in c["stats"]:
+            got = tbl[s][k]
+            if n == 0:
+                ok, want = got != got, "NaN"
+            else:
+                tot = sum(Fraction(v) * m for v, m in d.items())
+                if s == "count":
+                    want = n
+                elif s == "sum":
+                    want = float(tot)
+                elif s == "max":
+                    want = max(d)
+                elif s == "min":
+                    want = min(d)
+                elif s == "mean":
+                    want = float(tot / n)
+                else:
+                    mean = tot / n
+                    var = sum(m * (Fraction(v) - mean) ** 2 for v, m in d.items()) / n
+                    want = math.sqrt(float(var)) if s == "std" else float(var)
+                if s in EXACT_STATS or s == "sum":
+                    ok = got == want
+                elif s in ("var", "std"):
+                    # numbers up to a few hundred: n * eps * (mean square) bounds the rounding of either formula
+                    msq = float(sum(Fraction(v) ** 2 * m for v, m in d.items()) / n)
+                    tv = 1e-9 * (msq + 1.0)
+                    ok = got == got and abs(got - want) <= (tv if s == "var" else tv / max(want, math.sqrt(tv)))
+                else:
+                    ok = close(got, want, rel=1e-9, abs_=1e-9)
+            if not ok:
+                return f"zone {z}: {s} = {got}, but over its {n} valid cells it is {want}"
+    return None
 
 
 # ---------------------------------------------------------------- the real code
@@ -388,12 +655,21 @@ def stat_close(s, got, exact, dtype, cells=None, dask_formula=False):
     if exact is None:
         return got != got
     if got != got:
+        if s == "std" and dask_formula and cells:
+            # (ss - s^2/n)/n is rounded before the root is taken: when the true variance is below the rounding of
+            # that formula the computed one may be negative and its root NaN
+            n = len(cells)
+            return float(exact) <= 64 * eps_of(dtype) * (float(sum(x * x for x in cells)) / n + 1.0)
         return False
     want = math.sqrt(float(exact)) if s == "std" else float(exact)
     if s in EXACT_STATS:
         return got == want
     rel = 2e-5 if dtype == "float32" else 1e-9
     abs_ = 1e-9
+    if s in ("sum", "mean") and cells:
+        # a sum of numbers of both signs is only accurate relative to the sum of their magnitudes
+        mag = float(sum(abs(x) for x in cells))
+        abs_ = max(abs_, 16 * eps_of(dtype) * (mag if s == "sum" else mag / len(cells)))
     if s in ("var", "std") and cells:
         # rounding of the documented formulas: (ss - s^2/n)/n cancels, bound it by eps * ss/n
         n = len(cells)
@@ -450,8 +726,8 @@ def tables_agree(a, b, stats, dtype, c=None):
         return f"zone columns differ: {a['zone']} vs {b['zone']}"
     for s in stats:
         for k, (x, y) in enumerate(zip(a[s], b[s])):
-            cells = valid_cells(c, a["zone"][k]) if c is not None and s in ("var", "std") else None
-            if x != x or y != y:
+            cells = valid_cells(c, a["zone"][k]) if c is not None and s not in EXACT_STATS else None
+            if (x != x or y != y) and not (s == "std" and cells and y == y):
                 ok = (x != x) and (y != y)
             elif s in EXACT_STATS:
                 ok = x == y
@@ -459,7 +735,7 @@ def tables_agree(a, b, stats, dtype, c=None):
                 e = None
                 if cells:
                     e = exact_stat(s, cells)
-                ok = stat_close(s, x, e, dtype, cells) and stat_close(s, y, e, dtype, cells) if e is not None \
+                ok = stat_close(s, x, e, dtype, cells, dask_formula=True) and stat_close(s, y, e, dtype, cells) if e is not None \
                     else close(x, y, rel=2e-5 if dtype == "float32" else 1e-9, abs_=1e-9)
             if not ok:
                 return f"zone {a['zone'][k]}: {s} = {x} (dask) vs {y} (numpy)"
@@ -522,15 +798,15 @@ def parse_stats_reply(reply, stats):
     return tbl
 
 
-def model_vs_real_table(model, real, stats, dtype, c):
+def model_vs_real_table(model, real, stats, dtype, c, dask_formula=False):
     if model["zone"] != real["zone"]:
         return f"zone column: model {model['zone']} real {real['zone']}"
     for s in stats:
         if len(model[s]) != len(real[s]):
             return f"{s}: column lengths differ"
         for k, (m, g) in enumerate(zip(model[s], real[s])):
-            cells = valid_cells(c, real["zone"][k]) if s in ("var", "std") and m is not None else None
-            if not stat_close(s, g, m, dtype, cells):
+            cells = valid_cells(c, real["zone"][k]) if s not in EXACT_STATS and m is not None else None
+            if not stat_close(s, g, m, dtype, cells, dask_formula=dask_formula):
                 return f"zone {real['zone'][k]} {s}: model {None if m is None else float(m)} real {g}"
     return None
 
